@@ -934,7 +934,7 @@ Section P4.
         | TDone => perr o ts1 EDone (length ts1)
         | TEsac => perr o ts1 EEsac (length ts1)
         | TBang => if ng then sp_asname f o q t (length ts1) r0 else perr o ts1 EBangFull (length ts1)
-        | TAssign => bind (call_loop px (S f) o q None r0) (mk false)
+        | TAssign | TAssignW => bind (call_loop px (S f) o q None r0) (mk false)
         | TLit | TName | TIn => sp_asname f o q t (length ts1) r0
         | TWord =>
             match r0 with
@@ -1032,6 +1032,7 @@ Section P4.
     - (* TLit *) apply ASN.
     - (* TName *) apply ASN.
     - (* TAssign *) apply CALL.
+    - (* TAssignW *) apply CALL.
     - (* TIf *) apply CK. apply (Iif o q TIf y).
     - (* TWhile *) apply CK. apply (Iwhile o q TWhile y).
     - (* TUntil *) apply CK. apply (Iwhile o q TUntil y).
